@@ -9,6 +9,7 @@ import (
 	"go.lsp.dev/protocol"
 
 	"github.com/juev/hledger-lsp/internal/analyzer"
+	"github.com/juev/hledger-lsp/internal/include"
 	"github.com/juev/hledger-lsp/internal/parser"
 )
 
@@ -101,10 +102,21 @@ func (s *Server) InlineCompletion(_ context.Context, params json.RawMessage) (*I
 	return &InlineCompletionList{Items: []InlineCompletionItem{item}}, nil
 }
 
+// cachedPayeeTemplates is an entry of payeeTemplatesCache: the templates and
+// the stored include tree of the document they were computed from. An analysis
+// finishing in the background replaces that tree and drops the entry, but a
+// request that started before may store its result afterwards: an entry that
+// does not belong to the current tree is ignored.
+type cachedPayeeTemplates struct {
+	resolved  *include.ResolvedJournal
+	templates map[string][]analyzer.PostingTemplate
+}
+
 func (s *Server) getPayeeTemplates(uri protocol.DocumentURI, content string) map[string][]analyzer.PostingTemplate {
+	stored := s.GetResolved(uri)
 	if cached, ok := s.payeeTemplatesCache.Load(uri); ok {
-		if templates, ok := cached.(map[string][]analyzer.PostingTemplate); ok {
-			return templates
+		if entry, ok := cached.(cachedPayeeTemplates); ok && entry.resolved == stored {
+			return entry.templates
 		}
 	}
 
@@ -125,7 +137,7 @@ func (s *Server) getPayeeTemplates(uri protocol.DocumentURI, content string) map
 		result = s.analyzer.Analyze(journal)
 	}
 
-	s.payeeTemplatesCache.Store(uri, result.PayeeTemplates)
+	s.payeeTemplatesCache.Store(uri, cachedPayeeTemplates{resolved: stored, templates: result.PayeeTemplates})
 	return result.PayeeTemplates
 }
 
